@@ -49,7 +49,7 @@ func c06Ops(sub bool) []string {
 		"b = a + 7; c = a + 8", "b = {\"x\": 0} + a", "c = {0: 1} + a; c[300] = 1",
 		"func(k) { del(a[k]) }(0)", "func() { a[1] = 109 }()", "for i = 3 { c[i] = i }", "func() { for i = 2 { b[i] = a } }()",
 		// derived values that may share storage with their source: slices then append / merge, two results from one base
-		"b = a[0:6]", "c = b + {100: 100}", "c = b + 110", "c = a + {300: 1}; b = a + {400: 2}", "c = a + 111; b = a + 112", "a[50] = 1", "a = a + 113; b = a; a = a + 114; b = b + 115", "b = a[0:16]; b = b + 116",
+		"b = a[0:6]", "c = b + {100: 100}", "c = b + 110", "c = a + {300: 1}; b = a + {400: 2}", "c = a + 111; b = a + 112", "a[50] = 1", "a = a + 113; b = a; a = a + 114; b = b + 115", "b = a[0:16]; b = b + 116", "b = a[0:10]", "c = b + 117", "b = a + 118; c = b + 119; b = b + 120",
 		// a container of an outer scope handed on from inside a function: variadic arguments, literals, locals, parameters
 		"c = func() { func(..) { .. }(a) }()", "c = func() { [a, {\"k\": a}] }()", "c = func() { x = a; x }()", "c = func() { func(p) { [p] }(a) }()", "c = func() { func(p, ..) { [p, ..] }(b, a) }()")
 	// containers whose representation is large although their length is back under the threshold
